@@ -118,6 +118,21 @@ func dumpSlash(c *Chain) []string {
 		it.Close()
 	}
 	out = append(out, "K "+strings.Join(ks, ","))
+	// aggregates: query, height of the micro report that determined them, its reporter, the flag
+	var as []string
+	if it, err := c.App.OracleKeeper.Aggregates.Iterate(ctx, nil); err == nil {
+		for ; it.Valid(); it.Next() {
+			kv, _ := it.KeyValue()
+			a := kv.Value
+			who := "-" // aggregates written by the bridge module (withdrawals) name no reporter
+			if rep, err := sdk.AccAddressFromBech32(a.AggregateReporter); err == nil && len(rep) > 0 {
+				who = c.nameOf(rep)
+			}
+			as = append(as, fmt.Sprintf("%s:%d:%s:%v:%d", short(a.QueryId), a.MicroHeight, who, a.Flagged, kv.Key.K2()))
+		}
+		it.Close()
+	}
+	out = append(out, "A "+strings.Join(as, ","))
 	return out
 }
 
@@ -269,7 +284,7 @@ func genSlashHist(r *Rng, i int, tier string) []string {
 	}
 	for k := 0; k < nops; k++ {
 		a := r.PickS("a1", "a2", "a3", "a4", "a5", "a0")
-		switch r.Intn(16) {
+		switch r.Intn(17) {
 		case 0, 1, 2: // a tipped round with reports
 			q := r.Intn(3)
 			tx("tip a4 q%d %d", q, r.Range(1000, 1e6))
@@ -277,6 +292,16 @@ func genSlashHist(r *Rng, i int, tier string) []string {
 				tx("rep %s q%d %064x", reps[r.Intn(4)], q, r.Range(1, 1e9))
 				nrep++
 			}
+		case 15: // two queries tipped and reported in one block (their aggregates share the micro-report height)
+			q1 := r.Intn(3)
+			q2 := (q1 + 1 + r.Intn(2)) % 3
+			add("tip a4 q%d %d", q1, r.Range(1000, 1e6))
+			tx("tip a4 q%d %d", q2, r.Range(1000, 1e6))
+			add("rep %s q%d %064x", reps[r.Intn(4)], q1, r.Range(1, 1e9))
+			tx("rep %s q%d %064x", reps[r.Intn(4)], q2, r.Range(1, 1e9))
+			nrep += 2
+			add("blk 1000")
+			add("blk 1000")
 		case 3: // staking changes between report and dispute
 			tx("redel %s v%d v%d %d", r.PickS("a0", "a1", "a2", "a3"), r.Intn(nv), r.Intn(nv), r.Pick(500000, 999999, r.Range(1e5, 3e6)))
 		case 4, 5:
